@@ -154,6 +154,13 @@ fn config_for(rng: &mut ChaCha8Rng, key: &SignedSecretKey, hash: HashAlgorithm) 
         KeyVersion::V6 => SignatureConfig::v6(&mut *rng, SignatureType::Text, key.algorithm(), hash)?,
         _ => SignatureConfig::v4(SignatureType::Text, key.algorithm(), hash),
     };
+    // one configuration in four carries NO issuer subpacket at all (legal: they are hints; such a
+    // signature is a candidate for every key)
+    use rand::Rng;
+    if rng.gen_range(0..4) == 0 {
+        config.hashed_subpackets = vec![Subpacket::regular(SubpacketData::SignatureCreationTime(Timestamp::now()))?];
+        return Ok(config);
+    }
     config.hashed_subpackets = vec![
         Subpacket::regular(SubpacketData::SignatureCreationTime(Timestamp::now()))?,
         Subpacket::regular(SubpacketData::IssuerFingerprint(key.fingerprint()))?,
